@@ -117,7 +117,9 @@ class FrameParser(Parser):
             and (frame.is_text or frame.is_continuation)
         ):
             self._utf8_validator.reset()
-        if frame.fin:
+        if frame.fin and not frame.is_control:
+            # A control frame may be interleaved in a fragmented text
+            # message, which continues afterwards.
             self._is_text = False
 
 
